@@ -7,7 +7,7 @@ import ast
 
 from ..core import AnalysisError, dotted, walk_no_nested, FuncTypes
 from ..cfg import CFG, cond_guards
-from ..util import calls_in, call_name, depends_on, local_defs, names_in
+from ..util import calls_in, call_name, depends_on, local_defs, names_in, param_names, truth_under
 
 ASSUMPTIONS = [
     'GitPython diff() returns exactly the entries git reports for the given paths (not decided)',
@@ -139,8 +139,19 @@ def _run_base(ctx):
     ctx.inst('R17.2', fid, repo.norm(blob_arm.test) + ' -> ' + repo.norm(r), ok,
              'a missing blob (added/deleted file) maps to the null file' if ok else
              'a missing blob does not map to the null file', r)
-    last = fn.body[-1]
-    ok = isinstance(last, ast.Return) and dotted(last.value) == 'EXPLICIT_MISSING_FILE'
+    # what is returned when the path is empty/None: every return that is not behind "path is truthy" (whatever the layout: if-nesting or guard clauses)
+    p_path = param_names(fn)[0]
+    is_path = lambda e: isinstance(e, ast.Name) and e.id == p_path
+    falsy_rets = []
+    for r_ in [n for n in walk_no_nested(fn) if isinstance(n, ast.Return)]:
+        if any(truth_under(t, pol, is_path) is True for t, pol in cond_guards(g, r_)):
+            continue
+        falsy_rets.append(r_)
+    if not falsy_rets:
+        raise AnalysisError('_get_diff_entry_stream: no return reachable with an empty path')
+    bad_ = [r_ for r_ in falsy_rets if dotted(r_.value) != 'EXPLICIT_MISSING_FILE']
+    ok = not bad_
+    last = (bad_ or falsy_rets)[0]
     ctx.inst('R17.2', fid, 'falsy path -> ' + repo.norm(last), ok,
              'an empty path maps to the null file' if ok else 'an empty path does not map to the null file', last)
 
